@@ -52,7 +52,7 @@ def c17_violation(r):
 # small dispatcher configurations whose interleaving space is sampled densely; the evidence reports how the number of
 # distinct interleavings grows with the number of runs (a flat tail = the space reachable by the simulator is saturated)
 SMALL_C16 = ["P=2 mode=0 G=1 J=1", "P=2 mode=0 G=1 J=2,1", "P=3 mode=0 G=1 J=2", "P=2 mode=3 G=1 J=2 root=0", "P=1 mode=0 G=1 J=2,0,1"]
-SMALL_C16_THOROUGH = ["P=3 mode=0 G=1 J=3,2", "P=4 mode=1 G=2 J=1;2", "P=3 mode=2 G=1 J=3 root=1", "P=4 mode=0 G=1 J=3"]
+SMALL_C16_THOROUGH = ["P=3 mode=0 G=1 J=3,2", "P=4 mode=1 G=2 J=1;2", "P=3 mode=2 G=1 J=3 root=1", "P=4 mode=0 G=1 J=3", "P=3 mode=5 G=1 J=2,2 root=0 pool=1,2"]
 
 CHECKS = {
     "C16": {
